@@ -27,6 +27,7 @@ buffer, `r` (vectors only) a row view of a static 3×n matrix.
 * `det0`                 — determinant of the 0×0 matrix
 * `nb LR n a b axis`      — vector `a` (mode L ∈ s,r,b) and dim `b` (mode R ∈ s,b): `vector ∘ dim` for `+ - * /`, `dim::contents`,
                            `is_quadratic`, `to_dim`, `to_vector`, `vector::unit(axis)`
+* `md LR n a b k`        — `vector::ceil_div_signed`, `math::ceil_div_signed`; `vector::mod` (both overloads), `math::mod` on the absolute values (unsigned)
 * `tp M V A v`           — `transform_point`, `transform_direction` of the 4×4 matrix `A` and the 3-vector `v`
 * `inf M r c A`          — `infinity_norm`
 * `mem F R C va vb ma mb (T op X)+` — member operators on objects in one memory (F ∈ {v,d}).  The world: static vectors (dims) `A`, `B`
@@ -536,6 +537,16 @@ def nbLine {n : Nat} (a : Vec (n + 1)) (b : Vec (n + 1)) (axis : Nat) : String :
   s!"vd+={showV (addD a b)} vd-={showV (subD a b)} vd*={showV (mulD a b)} vd/={showO showV (divD a b)} cont={contents b} " ++
   s!"quad={b01 (isQuadratic b)} tod={showV (toDifferent a)} tov={showV (toDifferent b)} unit={showV (unit (n + 1) axis)}"
 
+/-- `md LR n a b k`: `vector::ceil_div_signed(a, k)`, the scalar `ceil_div_signed` of the first components, and — on the absolute
+    values in static storage, because `math::mod` only instantiates for unsigned (and floating-point) types —
+    `vector::mod(|a|, |k|)`, `vector::mod(|a|, |b|)`, `math::mod(|a0|, |b0|)` -/
+def mdLine {n : Nat} (a b : Vec (n + 1)) (k : Int) : String :=
+  let ua : Vec (n + 1) := init fun i => (a.get i).natAbs
+  let ub : Vec (n + 1) := init fun i => (b.get i).natAbs
+  let uk : Int := k.natAbs
+  s!"ms={showO showV (modS ua uk)} mv={showO showV (modV ua ub)} cd={showO showV (ceilDivSignedV a k)} " ++
+  s!"m0={showO toString (mod (ua.get 0) (ub.get 0))} c0={showO toString (ceilDivSigned (a.get 0) (b.get 0))}"
+
 def handle1 (toks : List String) : String :=
   match toks with
   | ["nb", lr, n, a, b, axis] =>
@@ -544,6 +555,15 @@ def handle1 (toks : List String) : String :=
       if (ml = 's' || ml = 'r' || ml = 'b') && (mr = 's' || mr = 'b') && axis ≤ n + 1 then
         match mkVec ml (n + 1) a, mkVec mr (n + 1) b with
         | some va, some vb => nbLine va vb axis
+        | _, _ => "bad-op"
+      else "bad-op"
+    | _, _, _, _, _ => "bad-op"
+  | ["md", lr, n, a, b, k] =>
+    match modeChars lr, parseDim 1 4 n, parseInts a, parseInts b, parseScalar k with
+    | some (ml, mr), some (n + 1), some a, some b, some k =>
+      if (ml = 's' || ml = 'r' || ml = 'b') && (mr = 's' || mr = 'r' || mr = 'b') then
+        match mkVec ml (n + 1) a, mkVec mr (n + 1) b with
+        | some va, some vb => mdLine va vb k
         | _, _ => "bad-op"
       else "bad-op"
     | _, _, _, _, _ => "bad-op"
